@@ -803,7 +803,7 @@ def run(ctx):
 
         def produce_sim():
             simcfg = cfg.replace("MaxUnits = 3", "MaxUnits = 6").replace("MaxSeqs = 2", "MaxSeqs = 3").replace("Cross = FALSE", "Cross = TRUE")
-            sim = tlc.run("Autofill", simcfg, simulate=1500, depth=30, seed=ctx.seed, workers=1, timeout=1800)
+            sim = tlc.run("Autofill", simcfg, simulate=500, depth=30, seed=ctx.seed, workers=1, timeout=5400)
             out = []
             for p in sorted(glob.glob(os.path.join(sim.sim_dir, "tr*"))):
                 sts = sim_states(p)
